@@ -77,7 +77,7 @@ def split_units(desc, bound, kinds, extra=None, shim_factory=None):
     return us
 
 
-def lifecycle_descs(tier, seed, hib_values=(False, True), objs=("twofunnel", "plateau", "sphere_in", "const", "tiny_offset"), maximize=(False, True)):
+def lifecycle_descs(tier, seed, hib_values=(False, True), objs=("twofunnel", "plateau", "sphere_in", "const", "tiny_offset"), maximize=(False, True), scale=True):
     s = 1 + seed % 1000
     out = []
     # (a) complete enumeration over L and S choices: small worlds
@@ -137,6 +137,11 @@ def lifecycle_descs(tier, seed, hib_values=(False, True), objs=("twofunnel", "pl
     for k, (_, d) in enumerate(out):
         if k % 2:
             d["verdict_type"] = ("npbool", "int")[(k // 2) % 2]
+    if scale:
+        # worlds beyond the small scope (run once each, no deviations): see hmsmc/scale.py
+        from .scale import lifecycle_scale_worlds
+
+        out += lifecycle_scale_worlds(tier, seed)
     return out
 
 
@@ -197,7 +202,7 @@ def lifecycle_units(tier, seed, mechanisms=True, **kw):
         if mode == "complete":
             us += split_units(desc, 99, "LS", {"mode": mode})
         else:
-            us += split_units(desc, b, "GLS", {"mode": mode})
+            us += split_units(desc, min(b, desc.get("max_bound", b)), "GLS", {"mode": mode})
     if mechanisms:
         for desc in mechanism_descs(tier, seed):
             us += split_units(desc, 1 if tier == "quick" else 2, "GL", {"mode": "mechanism"})
